@@ -85,6 +85,14 @@ def pins_obligations(ctx, eq, topo):
                 primary = xp is eq.x_points[0]
                 want = 1 if (primary or not nis_pos) else 2
                 ctx.oblige(TRUE(k == want), "T7:%s: X-point at the %s is pinned on its own separatrix (radial edge %d)" % (nm, which, want))
+    # T9: the kind label (which selects the spacing parameters of each end, C10) says "wall" exactly at
+    # the ends without a y-neighbour and "X" at the ends joined to another region
+    for nm, reg in eq.regions.items():
+        lo, up = reg.kind.split(".")
+        has_lower = any(reg.connections[k]["lower"] is not None for k in range(reg.nSegments))
+        has_upper = any(reg.connections[k]["upper"] is not None for k in range(reg.nSegments))
+        ctx.oblige(TRUE((lo == "X") == has_lower and (lo in ("X", "wall"))), "T9:%s: lower end is '%s' and %s a lower neighbour" % (nm, lo, "has" if has_lower else "has no"))
+        ctx.oblige(TRUE((up == "X") == has_upper and (up in ("X", "wall"))), "T9:%s: upper end is '%s' and %s an upper neighbour" % (nm, up, "has" if has_upper else "has no"))
     # T8: regions joined in y are gridded on the SAME radial psi values, segment by segment
     same = lambda a, b: a is b or (getattr(a, "tag", 0) == getattr(b, "tag", 1) and getattr(a, "n", 0) == getattr(b, "n", 1))
     for nm, reg in eq.regions.items():
@@ -264,6 +272,38 @@ def run_assembly(ctx):
     return m
 
 
+def make_rz_boundary_run(kind):
+    """MeshRegion.getRZBoundary: the last y-face row (ylow, corners) of a region IS the first
+    row of its upper neighbour -- also when the region is its own upper neighbour (the
+    periodic core of a single null) -- and is left alone at a target."""
+
+    def run(ctx):
+        from hypnotoad.core import mesh as M
+
+        nx, ny = 2, 2
+        mk_r = lambda tag: types.SimpleNamespace(Rxy=mk.sym_mla(ctx, "R" + tag, ("ylow", "corners"), nx, ny, shared=False), Zxy=mk.sym_mla(ctx, "Z" + tag, ("ylow", "corners"), nx, ny, shared=False))
+        r = mk.skeleton_region(True)
+        r.nx, r.ny, r.myID = nx, ny, 1
+        me = mk_r("a")
+        r.Rxy, r.Zxy = me.Rxy, me.Zxy
+        other = mk_r("b")
+        before = {(n, l): numpy.array(getattr(getattr(r, n), l), dtype=object).copy() for n in ("Rxy", "Zxy") for l in ("ylow", "corners")}
+        first_other = {(n, l): numpy.array(getattr(getattr(other, n), l), dtype=object)[:, 0].copy() for n in ("Rxy", "Zxy") for l in ("ylow", "corners")}
+        r.connections = dict(lower=None, inner=None, outer=None, upper={"other": 2, "self": 1, "target": None}[kind])
+        r.meshParent = types.SimpleNamespace(regions={1: r, 2: other})
+        M.MeshRegion.getRZBoundary(r)
+        with spec_mode():
+            for n in ("Rxy", "Zxy"):
+                for l in ("ylow", "corners"):
+                    now = getattr(getattr(r, n), l)
+                    src = {"other": first_other[(n, l)], "self": before[(n, l)][:, 0], "target": before[(n, l)][:, -1]}[kind]
+                    ctx.oblige(And(*[now[i, -1] == src[i] for i in range(now.shape[0])]), "%s.%s last row = %s" % (n, l, {"other": "first row of the upper neighbour", "self": "its own first row (periodic in y)", "target": "unchanged at a target"}[kind]))
+                    ctx.oblige(And(*[now[i, j] == before[(n, l)][i, j] for i in range(now.shape[0]) for j in range(now.shape[1] - 1)]), "%s.%s: nothing else modified" % (n, l))
+        return r
+
+    return run
+
+
 def run_write_arrays(ctx):
     """writeArray / writeCorners / writeArrayXDirection: which entries go to the file under
     which name (the file holds nx x ny values per variable: the last x-face / y-face / corner
@@ -318,4 +358,16 @@ def build(S):
         S.contract("geometry[assembly of global arrays]", FN_GEO, run_assembly, shape="4 regions (2x2 blocks of sizes 1x2, 2x2), all values symbolic")
         S.under_contract("hypnotoad.core.mesh:BoutMesh.writeArray", "hypnotoad.core.mesh:BoutMesh.writeCorners", "hypnotoad.core.mesh:BoutMesh.writeArrayXDirection")
         S.contract("writeArray/writeCorners/writeArrayXDirection", "hypnotoad.core.mesh:BoutMesh.writeArray", run_write_arrays, shape="nx=ny=2, all values symbolic")
+        S.under_contract("hypnotoad.core.mesh:MeshRegion.getRZBoundary")
+        for kind in ("other", "self", "target"):
+            S.contract("getRZBoundary[upper neighbour: %s]" % kind, "hypnotoad.core.mesh:MeshRegion.getRZBoundary", make_rz_boundary_run(kind), shape="nx=ny=2, all values symbolic")
         S.contract("dy", FNS[7], run_dy, shape="sizes symbolic", expected_exceptions=(ValueError,), raises_ok=refused_ok)
+
+
+def post(S):
+    """Bounded: the same statements on generated grids -- shared edges coincide (a region that is
+    its own y-neighbour included), and the FILE's corner coordinates exhibit the adjacency its
+    topology integers announce; theta and chi as documented."""
+    from bounded import gridrun
+
+    gridrun.run(S, ["shared_edges", "file_topology"], "hypnotoad.core.mesh:MeshRegion.getRZBoundary", name="shared edges and file-level adjacency on generated grids")
